@@ -44,6 +44,7 @@ type batchOutcome struct {
 	Broken   []*ws.Unit // units that failed build or vet (removed before the batch build)
 	Rejected []*ws.Unit // units refused by go-http / go-client
 	Results  []*inner.Result
+	Races    []string // race detector reports found in the output of the batch processes
 }
 
 // inner seed used when spec.Seed is 0
@@ -146,6 +147,11 @@ func runBatch(c *core.Ctx, spec *batchSpec) (*batchOutcome, error) {
 			case <-time.After(timeout):
 				_ = cmd.Process.Kill()
 				runErr = fmt.Errorf("inner shard %d timed out after %s", sh, timeout)
+			}
+			if strings.Contains(ob.String(), "WARNING: DATA RACE") {
+				mu.Lock()
+				out.Races = append(out.Races, raceExcerpt(ob.String()))
+				mu.Unlock()
 			}
 			rb, rerr := os.ReadFile(cfg.Report)
 			if rerr != nil {
@@ -281,4 +287,20 @@ func describeBroken(out *batchOutcome) string {
 		fmt.Fprintf(&b, "%s rejected: %v; ", u.Schema.ID, u.PluginErr)
 	}
 	return b.String()
+}
+
+// raceExcerpt cuts the first race report out of a process output.
+func raceExcerpt(out string) string {
+	i := strings.Index(out, "WARNING: DATA RACE")
+	if i < 0 {
+		return ""
+	}
+	rest := out[i:]
+	if j := strings.Index(rest[1:], "=================="); j > 0 {
+		rest = rest[:j+1]
+	}
+	if len(rest) > 5000 {
+		rest = rest[:5000] + "…"
+	}
+	return rest
 }
